@@ -27,9 +27,11 @@ class FakeSystem(oqupy.System):
         super().__init__(np.zeros((d, d)))
         self._P1, self._P2 = P1, P2
         self.calls = []
+        self.calls_full = []
 
     def get_propagators(self, dt, start_time, subdiv_limit, epsrel):
         self.calls.append((dt, start_time))
+        self.calls_full.append((dt, start_time, subdiv_limit, epsrel))
         return lambda step: (self._P1[step], self._P2[step])
 
 
